@@ -37,7 +37,7 @@ fn info(tier: Tier) -> CheckInfo {
         ),
         assumptions: vec!["scripted storers acknowledge every write in part 1".into()],
     };
-    ci.rule.push_str(" Added: both parts also through the blocking Dht API; an accepted second put must reach a storer; every storer reply delivered one, two and three times. Part 3: real storage nodes instead of scripted ones (4 quick; 3, 4, 6 thorough): a stored seq 4, then put(seq 5, cas none / 4) and an identical call before every event of its lifetime, async and blocking API: both return Ok.");
+    ci.rule.push_str(" Added: both parts also through the blocking Dht API; an accepted second put must reach a storer; every storer reply delivered one, two and three times. Part 3: real storage nodes instead of scripted ones (4 quick; 3, 4, 6 thorough): a stored seq 4, then put(seq 5, cas none / 4) and an identical call before every event of its lifetime, async and blocking API: both return Ok. Also: the second call one second after a first put that failed because no storer answered - never a concurrency error.");
     ci
 }
 
@@ -61,6 +61,9 @@ struct P1Cfg {
     at: Option<u32>,
     /// both puts go through the blocking `Dht` API
     sync: bool,
+    /// the storers fall silent once the node has joined: the first put fails (no storage node
+    /// answers its lookup); the second call comes after that failure
+    dead: bool,
 }
 
 struct Out1 {
@@ -124,6 +127,11 @@ fn part1(cfg: &P1Cfg, track: bool) -> Out1 {
         // message has not even been consumed yet, or the node's put table holds the target now.
         let snap = w.snapshot(a);
         *in_flight = w.nodes[a].iterations == iters_at_c1 || snap.core.put_queries.iter().any(|q| *q.target.as_bytes() == target);
+        if cfg.at.is_none() {
+            // the first caller has had its result for a second: that put is complete by
+            // definition, whatever the node still keeps about it
+            *in_flight = false;
+        }
         *c2 = Some(w.call_put_mutable(a, p2.clone(), cas));
     };
     if cfg.at == Some(0) {
@@ -151,7 +159,9 @@ fn part1(cfg: &P1Cfg, track: bool) -> Out1 {
             break;
         };
         if let Event::EndpointRecv { ep, dgram } = &ev {
-            net.handle(&mut w, *ep, dgram);
+            if !cfg.dead {
+                net.handle(&mut w, *ep, dgram);
+            }
         }
         if done1.is_none() && w.result(c1).is_some() {
             done1 = Some(w.now);
@@ -182,7 +192,20 @@ fn part1(cfg: &P1Cfg, track: bool) -> Out1 {
     let r2 = fmt(c2.and_then(|c| w.result(c)));
     let mut problems = vec![];
     if c2.is_some() {
-        let expect: Vec<&str> = if in_flight {
+        if cfg.dead {
+            if ["ConflictRisk", "CasFailed", "NotMostRecent"].iter().any(|e| r2.contains(e)) {
+                problems.push((
+                    format!("second-put-result/after-failed-first/{}/{}", REL[cfg.rel], CAS[cfg.cas]),
+                    format!("the first put failed ({r1}: no storage node answered) and its caller had the error for a second; the second put ({}, {}) was refused locally with {r2} as if the first were still in flight", REL[cfg.rel], CAS[cfg.cas]),
+                ));
+            }
+            if r1 == "Ok" {
+                problems.push(("part1-setup/dead-network".into(), format!("the first put returned Ok although no storer answered")));
+            }
+        }
+        let expect: Vec<&str> = if cfg.dead {
+            vec![r2.as_str()]
+        } else if in_flight {
             match (cfg.rel, cfg.cas) {
                 (0, _) => vec!["Ok"],
                 (1, _) => vec!["NotMostRecent"],
@@ -232,7 +255,7 @@ fn part1(cfg: &P1Cfg, track: bool) -> Out1 {
             }
         }
         // the first call's outcome: Ok unless it was superseded and the network failed
-        if r1 != "Ok" {
+        if r1 != "Ok" && !cfg.dead {
             problems.push((format!("first-put-result/{}/{}", REL[cfg.rel], CAS[cfg.cas]), format!("first put returned {r1} although every storer acknowledges")));
         }
     }
@@ -475,7 +498,7 @@ fn run(tier: Tier, shard: usize, nshards: usize, _seed: u64) -> Partial {
     // ---- part 1
     for salted in [false, true] {
         // number of events in P1's lifetime (placement None never issues P2 early)
-        let base = part1(&P1Cfg { rel: 0, cas: 0, salted, at: None, sync: false }, false);
+        let base = part1(&P1Cfg { rel: 0, cas: 0, salted, at: None, sync: false, dead: false }, false);
         out.gauge_max("events_in_first_put_lifetime", base.events as u64);
         for rel in 0..4 {
             for cas in 0..3 {
@@ -485,7 +508,7 @@ fn run(tier: Tier, shard: usize, nshards: usize, _seed: u64) -> Partial {
                     if !mine() {
                         continue;
                     }
-                    let cfg = P1Cfg { rel, cas, salted, at, sync };
+                    let cfg = P1Cfg { rel, cas, salted, at, sync, dead: false };
                     let o = part1(&cfg, at == Some(2));
                     out.add("executions", 1);
                     out.add("transitions", o.steps);
@@ -499,6 +522,20 @@ fn run(tier: Tier, shard: usize, nshards: usize, _seed: u64) -> Partial {
                     }
                     for (k, d) in &o.problems {
                         out.violation(format!("{k}{}", if sync { "/blocking-api" } else { "" }), format!("{}{d} [placement {at:?}, salted {salted}]", if sync { "[blocking Dht API] " } else { "" }), json!({"part": 1, "rel": rel, "cas": cas, "salted": salted, "at": at, "sync": sync}));
+                    }
+                }
+                // the second call after a first put that FAILED (silent storers)
+                for sync in [false, true] {
+                    if !mine() {
+                        continue;
+                    }
+                    let o = part1(&P1Cfg { rel, cas, salted, at: None, sync, dead: true }, false);
+                    out.add("executions", 1);
+                    out.add("transitions", o.steps);
+                    out.add("second_after_failed_first", (o.r2 != "PENDING" && o.r1 != "Ok") as u64);
+                    out.outcomes.insert(format!("dead:{}:{}:{}->{}|{}", REL[rel], CAS[cas], salted, o.r1, o.r2));
+                    for (k, d) in &o.problems {
+                        out.violation(format!("{k}{}", if sync { "/blocking-api" } else { "" }), format!("{}{d} [salted {salted}]", if sync { "[blocking Dht API] " } else { "" }), json!({"part": 1, "rel": rel, "cas": cas, "salted": salted, "at": null, "sync": sync, "dead": true}));
                     }
                 }
             }
@@ -550,6 +587,7 @@ fn run(tier: Tier, shard: usize, nshards: usize, _seed: u64) -> Partial {
         }
     }
     out.witness("second put handled while the first was in flight", out.count("second_handled_in_flight") > 0 || shard != 0);
+    out.witness("second put handled after a failed first put", out.count("second_after_failed_first") > 0 || shard != 0);
     out.witness("second put handled after the first completed", out.count("second_handled_after") > 0 || shard != 0);
     out.sample(json!({"part": 1, "second": "equal-seq-other-value", "cas": "no-cas", "placement": "before event 4 of the first put (store phase)"}));
     out.sample(json!({"part": 2, "kind": "put_mutable", "replies": ["ack", "301", "301"], "arrival_order": 3}));
@@ -582,6 +620,7 @@ fn replay(v: &Value) -> Result<Option<Violation>, String> {
             salted: v.get("salted").and_then(|x| x.as_bool()).unwrap_or(false),
             at: v.get("at").and_then(|x| x.as_u64()).map(|x| x as u32),
             sync: v.get("sync").and_then(|x| x.as_bool()).unwrap_or(false),
+            dead: v.get("dead").and_then(|x| x.as_bool()).unwrap_or(false),
         };
         let sync = cfg.sync;
         for (k, d) in part1(&cfg, false).problems {
